@@ -364,6 +364,9 @@ func mainCheck(args []string) int {
 			"no allocation failure, stack overflow or GC effects",
 		}
 		for _, x := range execs {
+			for k := range x.crossMode {
+				assumptions = append(assumptions, "contract of bv-mode function "+k+" used by int-mode caller "+shortKey(x.top.Key)+": its clauses are read over mathematical integers (agreement relies on the spec expressions not overflowing)")
+			}
 			if x.top.NoOverflow {
 				assumptions = append(assumptions, "machine arithmetic treated as mathematical (overflow obligations waived) in "+shortKey(x.top.Key))
 			}
